@@ -27,6 +27,7 @@ package basicauth
 //@   ensures result != nil
 //@ ghost parsedOK int
 //@ func parseHtpasswd
+//@   requires pm != nil
 //@   modifies MV:map[string]github.com/tmpim/casket/caskethttp/basicauth.PasswordMatcher, MD:map[string]github.com/tmpim/casket/caskethttp/basicauth.PasswordMatcher, ghost:parsedOK
 //@   ensures (result == nil) == (parsedOK == 1)
 //@   ensures [only_the_given_table] unchanged_except("map:map[string]github.com/tmpim/casket/caskethttp/basicauth.PasswordMatcher", pm)
